@@ -202,6 +202,7 @@ def extract(graph, validate=True):
 # generated mini suites: a complete small tp_folder/configs + the same suite as an abstract suite
 # ---------------------------------------------------------------------------------------------
 
+MAX_FLATS = 48     # upper bound of the number of flat nodes a selection of a generated suite can have
 OS_POOL = {"vm1": ["Aos", "Bos"], "vm2": ["Cos", "Dos"], "vm3": ["Eos", "Fos"]}
 MAIN_SETS = ["all", "nonleaves", "leaves", "normal", "minimal"]
 
@@ -640,9 +641,20 @@ def suite_dir(suite):
 def run_case(case):
     """Run the real parser for one case.  Returns (graph | None, status) with status `ok`, `empty-product` or
     `error:<Type>:<message>`.  case: {suite | None (shipped), tests_str, vm_strs, nets, mode: eager|lazy, order}"""
+    import signal
     G, N, O, W, P = cartgraph()
     activate(suite_dir(case["suite"]) if case.get("suite") else None)
     params = {"nets": " ".join(case["nets"])}
+
+    class _Timeout(Exception):
+        pass
+
+    def _alarm(signum, frame):
+        raise _Timeout()
+    # the real parser does not always terminate on graphs it mangles (observed: runaway cloning when validate()
+    # is not there to abort it): bound every parse
+    old_handler = signal.signal(signal.SIGALRM, _alarm)
+    signal.alarm(int(case.get("timeout", 90 if case.get("suite") else 400)))
     try:
         if case.get("mode", "eager") == "eager":
             graph = parse_eager(case["tests_str"], case["vm_strs"], params)
@@ -657,8 +669,13 @@ def run_case(case):
         return graph, "ok"
     except P.EmptyCartesianProduct:
         return None, "empty-product"
+    except _Timeout:
+        return None, "error:Timeout:the parser did not finish in time"
     except Exception as e:  # noqa
         return None, f"error:{type(e).__name__}:{str(e)[:300]}"
+    finally:
+        signal.alarm(0)
+        signal.signal(signal.SIGALRM, old_handler)
 
 
 # ---------------------------------------------------------------------------------------------
@@ -965,3 +982,129 @@ def spec_bridges(x):
         if d[0] == "bridged":
             add("bridge-outside-graph", d)
     return bad
+
+
+# ---------------------------------------------------------------------------------------------
+# running the real parser with a patched / mutated copy of ONE module (never edits /repo)
+# ---------------------------------------------------------------------------------------------
+
+PATCHES = {
+    # proposed minimal fixes of the findings (see design.d/C06.md); used to attribute a deviation to a finding:
+    # if it disappears under exactly this patch, it belongs to that finding
+    "fix-shadowed-test_object": ("graph", [(
+        "            for test_object in test_node.objects:\n"
+        "                object_parents = self.get_nodes(\n"
+        "                    \"name\",\n"
+        "                    rf\"(\\.|^){test_object.component_form}(\\.|$)\",",
+        "            for node_object in test_node.objects:\n"
+        "                object_parents = self.get_nodes(\n"
+        "                    \"name\",\n"
+        "                    rf\"(\\.|^){node_object.component_form}(\\.|$)\",")]),
+    "fix-objects-of-later-workers": ("graph", [(
+        "                graph.new_objects([s for s in stubs if s.key == \"nets\"])",
+        "                known_ids = {o.id for o in graph.objects}\n"
+        "                graph.new_objects([s for s in stubs if s.key == \"nets\" or s.id not in known_ids])")]),
+}
+
+
+class patched:
+    """context manager: the methods of TestGraph / TestNode come from a textually patched copy of the module"""
+
+    def __init__(self, *names, extra=None):
+        self.edits = {}
+        for n in names:
+            mod, reps = PATCHES[n]
+            self.edits.setdefault(mod, []).extend(reps)
+        for mod, reps in (extra or {}).items():
+            self.edits.setdefault(mod, []).extend(reps)
+        self.saved = []
+
+    def __enter__(self):
+        import importlib.util
+        G, N, O, W, P = cartgraph()
+        targets = {"graph": (G, "TestGraph"), "node": (N, "TestNode")}
+        for mod, reps in self.edits.items():
+            real, cls = targets[mod]
+            src = open(real.__file__).read()
+            for old, new in reps:
+                if src.count(old) != 1:
+                    raise RuntimeError(f"patch does not apply exactly once to {mod}.py: {old[:60]!r}")
+                src = src.replace(old, new)
+            path = os.path.join(scratch(), f"patched_{mod}_{abs(hash(src)) % 10 ** 8}.py")
+            with open(path, "w") as fh:
+                fh.write(src)
+            spec = importlib.util.spec_from_file_location(f"avocado_i2n.cartgraph._verif_{mod}", path)
+            m = importlib.util.module_from_spec(spec)
+            m.__package__ = "avocado_i2n.cartgraph"
+            spec.loader.exec_module(m)
+            pc, rc = getattr(m, cls), getattr(real, cls)
+            for k, v in vars(pc).items():
+                if k.startswith("__") and k not in ("__init__", "__repr__", "__contains__"):
+                    continue
+                if k in vars(rc):
+                    self.saved.append((rc, k, vars(rc)[k]))
+                    try:
+                        setattr(rc, k, v)
+                    except (AttributeError, TypeError):
+                        self.saved.pop()
+        return self
+
+    def __exit__(self, *a):
+        for rc, k, v in reversed(self.saved):
+            setattr(rc, k, v)
+        return False
+
+
+# ---------------------------------------------------------------------------------------------
+# attribution of a deviation to a known finding: does it disappear under exactly that finding's minimal fix?
+# ---------------------------------------------------------------------------------------------
+
+FINDING_OF_PATCH = [
+    (("fix-shadowed-test_object",), "shadowed-test_object"),
+    (("fix-objects-of-later-workers",), "first-worker-restricts-vm-objects"),
+    (("fix-shadowed-test_object", "fix-objects-of-later-workers"), "shadowed-test_object+first-worker-restricts-vm-objects"),
+]
+
+
+def run_attributed(ctx, case, run_one, double_clone_key="double-clone"):
+    """Run `run_one(sub_ctx, case)` on a private context; if it reports violations, re-run it under the minimal fix
+    of each known finding and key the violations by the finding whose fix makes them disappear."""
+    import vlib
+    sub = vlib.Ctx(ctx.prop, ctx.tier, ctx.seed)
+    sub.rng = ctx.rng
+    run_one(sub, case)
+    ctx.evaluations += sub.evaluations
+    ctx.nontrivial |= sub.nontrivial
+    for smp in sub.samples:
+        if len(ctx.samples) < 4:
+            ctx.samples.append(smp)
+    for k, v in sub.distribution.items():
+        ctx.count(k, v)
+    ctx.disagreements += sub.disagreements
+    ctx.notes += sub.notes
+    for k, v in sub.extra.items():
+        if isinstance(v, (int, float)):
+            ctx.extra[k] = round(ctx.extra.get(k, 0) + v, 1)
+    if not sub.violations:
+        return
+    keys = {v["key"] for v in sub.violations}
+    attributed = None
+    if keys != {double_clone_key}:
+        for patches, key in FINDING_OF_PATCH:
+            trial = vlib.Ctx(ctx.prop, ctx.tier, ctx.seed)
+            trial.rng = ctx.rng
+            try:
+                with patched(*patches):
+                    run_one(trial, case)
+            except Exception as e:  # noqa
+                ctx.notes.append(f"attribution run under {patches} raised {type(e).__name__}: {e}"[:300])
+                continue
+            ctx.count("attribution.runs")
+            if not trial.violations and not trial.disagreements:
+                attributed = key
+                break
+    for v in sub.violations:
+        key = attributed or v["key"]
+        ctx.count("violation." + key)
+        what = v["what"] if not attributed else f"[disappears under the minimal fix of finding `{attributed}`] " + v["what"]
+        ctx.violate(key, what, v["case"])
